@@ -163,6 +163,11 @@ func runKernel(l *loaded, k *Kernel, tier string, seed int64) *KernelResult {
 	if v, ok := params["maxpaths"]; ok {
 		cfg.MaxPaths = v
 	}
+	for _, kv := range strings.Fields(os.Getenv("SYMGO_PARAMS")) {
+		if p := strings.SplitN(kv, "=", 2); len(p) == 2 {
+			params[p[0]], _ = strconv.Atoi(p[1])
+		}
+	}
 	if w := os.Getenv("SYMGO_WORKERS"); w != "" {
 		cfg.Workers, _ = strconv.Atoi(w)
 	}
